@@ -296,12 +296,16 @@ func c01Scenarios(thorough bool) []c01Scn {
 		{"S6", [][]string{{"S"}, {"S"}, {"E:s1"}}, nil},
 		{"S11", [][]string{{"E:s1", "E:s2", "E:s3", "S"}}, nil}, // sequential: several batches left to the shutdown drain
 	}
+	// S4 / S9 (ForceFlush against Shutdown; a Shutdown cut short, then another): in the quick tier
+	// with the smallest configuration only -- they are where the two recorded findings show
+	s = append(s,
+		c01Scn{"S4", [][]string{{"E:s1"}, {"F"}, {"S"}}, nil},
+		c01Scn{"S9", [][]string{{"E:s1", "E:s2"}, {"Sc"}}, []string{"S"}},
+	)
 	if thorough {
 		s = append(s,
 			c01Scn{"S2", [][]string{{"E:s1", "F", "E:s2"}, {"E:s3"}}, []string{"S"}},
-			c01Scn{"S4", [][]string{{"E:s1"}, {"F"}, {"S"}}, nil},
 			c01Scn{"S8", [][]string{{"E:s1", "E:s2", "E:s3"}, {"F"}, {"F"}}, []string{"S"}},
-			c01Scn{"S9", [][]string{{"E:s1", "E:s2"}, {"Sc"}}, []string{"S"}},
 		)
 	}
 	return s
@@ -326,6 +330,9 @@ func TestVerifC01(t *testing.T) {
 			if (sc.name == "R1" || sc.name == "R2") && !(c.String() == "q2b1" || c.String() == "q1b1-blocking") {
 				continue // real spans have many more scheduling points: two configurations only
 			}
+			if !thorough && (sc.name == "S4" || sc.name == "S9") && c.String() != "q1b1" {
+				continue
+			}
 			jobs = append(jobs, sc.name+"/"+c.String())
 		}
 	}
@@ -338,8 +345,8 @@ func TestVerifC01(t *testing.T) {
 					continue
 				}
 				p, e := 1, 1
-				if sc.name == "R1" || sc.name == "R2" {
-					e = 0
+				if sc.name == "R1" || sc.name == "R2" || sc.name == "S4" {
+					e = 0 // (quick) three threads: preemptions only
 				}
 				if thorough {
 					p, e = 2, 1
